@@ -63,6 +63,7 @@ type Case struct {
 	Fail         bool     `json:"fail"`
 	ServerStream bool     `json:"server_stream"` // the method is server-streaming and sends Replies messages (false: unary)
 	Replies      int      `json:"replies"`
+	Writer       bool     `json:"writer"` // (http, server-streaming with >= 1 reply) the method replies with a google.api.HttpBody stream and the handler writes it through larking.AsHTTPBodyWriter instead of SendMsg
 	Split        bool     `json:"split"` // the handler sets its metadata one value per SetHeader/SetTrailer call (calls accumulate)
 }
 
@@ -84,13 +85,18 @@ func theWorld() *dyn.World {
 		world = uni.WorldWith(dyn.Svc("C14",
 			dyn.MethodSpec{Name: "Do", In: ".un.All", Out: ".un.All", Rule: &annotations.HttpRule{Pattern: &annotations.HttpRule_Post{Post: "/c14/do"}, Body: "*"}},
 			dyn.MethodSpec{Name: "DoS", In: ".un.All", Out: ".un.All", ServerStream: true, Rule: &annotations.HttpRule{Pattern: &annotations.HttpRule_Post{Post: "/c14/dos"}, Body: "*"}},
+			dyn.MethodSpec{Name: "Down", In: ".un.All", Out: ".google.api.HttpBody", ServerStream: true, Rule: &annotations.HttpRule{Pattern: &annotations.HttpRule_Post{Post: "/c14/down"}, Body: "*"}},
 		))
 	})
 	return world
 }
 
 var reserved = map[string]bool{"content-type": true, "grpc-status": true, "grpc-message": true, "grpc-encoding": true, "grpc-status-details-bin": true, "grpc-timeout": true,
-	"user-agent": true, "grpc-message-type": true, "te": true, "grpc-accept-encoding": true, "content-length": true}
+	"user-agent": true, "grpc-message-type": true, "te": true, "grpc-accept-encoding": true, "content-length": true,
+	// "Trailer" is how net/http announces trailers: metadata of that name shares the field with the
+	// protocol's own announcement, so its value can not be transported exactly - but it must not displace
+	// the status either
+	"trailer": true}
 
 func toMD(kvs []KV) metadata.MD {
 	md := metadata.MD{}
@@ -122,6 +128,7 @@ func inCalls(split bool, kvs []KV, set func(metadata.MD)) {
 }
 
 const failMsg = "real failure"
+const writerType = "application/x-c14"
 
 type seen struct {
 	md  metadata.MD
@@ -177,9 +184,24 @@ func newMux(c Case, s *seen) *larking.Mux {
 		default:
 			inCalls(c.Split, c.Header, func(md metadata.MD) { ss.SetHeader(md) })
 		}
-		for i := 0; i < c.nreplies(); i++ {
-			if err := ss.SendMsg(dynamicpb.NewMessage(out)); err != nil {
+		if c.Writer {
+			// the raw download path: the first message (content type) and then plain bytes
+			head := dynamicpb.NewMessage(out)
+			head.Set(out.Fields().ByName("content_type"), protoreflect.ValueOfString(writerType))
+			wr, err := larking.AsHTTPBodyWriter(ss, head)
+			if err != nil {
 				return err
+			}
+			for i := 0; i < c.nreplies(); i++ {
+				if _, err := wr.Write([]byte("chunk")); err != nil {
+					return err
+				}
+			}
+		} else {
+			for i := 0; i < c.nreplies(); i++ {
+				if err := ss.SendMsg(dynamicpb.NewMessage(out)); err != nil {
+					return err
+				}
 			}
 		}
 		if c.TrailerLate {
@@ -260,6 +282,9 @@ func Check(c Case) []evid.Violation {
 	method, route := "/un.C14/Do", "/c14/do"
 	if c.nreplies() >= 0 {
 		method, route = "/un.C14/DoS", "/c14/dos"
+	}
+	if c.Writer {
+		method, route = "/un.C14/Down", "/c14/down"
 	}
 	switch c.Transport {
 	case "grpc":
@@ -433,6 +458,13 @@ func Check(c Case) []evid.Violation {
 		}
 		if c.nreplies() == 0 && !c.Fail && len(obs.body) == 0 && len(obs.header["content-type"]) == 0 {
 			// an empty stream has no body and therefore needs no content type
+		} else if c.Writer {
+			if got := first(obs.header["content-type"]); got != writerType || len(obs.header["content-type"]) != 1 {
+				return fail("reserved", "forged-content-type", "content-type %q want %s (HttpBody stream)", obs.header["content-type"], writerType)
+			}
+			if want := strings.Repeat("chunk", c.nreplies()); !strings.HasPrefix(string(obs.body), want) {
+				return fail("response", "writer-body", "HttpBody stream body %q does not start with %q", obs.body, want)
+			}
 		} else if got := first(obs.header["content-type"]); got != "application/json" || len(obs.header["content-type"]) != 1 {
 			return fail("reserved", "forged-content-type", "content-type %q want application/json", obs.header["content-type"])
 		}
@@ -545,7 +577,7 @@ func genKVs(t *rapid.T, label string) []KV {
 		var kv KV
 		switch rapid.IntRange(0, 9).Draw(t, label+"kind") {
 		case 0, 1: // reserved
-			kv.Key = rapid.SampledFrom([]string{"content-type", "grpc-status", "grpc-message", "grpc-encoding", "grpc-status-details-bin", "grpc-timeout"}).Draw(t, label+"rk")
+			kv.Key = rapid.SampledFrom([]string{"content-type", "grpc-status", "grpc-message", "grpc-encoding", "grpc-status-details-bin", "grpc-timeout", "trailer"}).Draw(t, label+"rk")
 			switch kv.Key {
 			case "grpc-status":
 				kv.Vals = [][]byte{[]byte(rapid.SampledFrom([]string{"0", "16", "2"}).Draw(t, label+"rv"))}
@@ -620,6 +652,7 @@ func genCase(t *rapid.T, transports []string) Case {
 	c.Fail = rapid.Bool().Draw(t, "fail")
 	if k := rapid.SampledFrom([]int{-1, -1, 0, 1, 2}).Draw(t, "stream"); k >= 0 && c.Transport != "grpc-real" {
 		c.ServerStream, c.Replies = true, k
+		c.Writer = c.Transport == "http" && k >= 1 && rapid.IntRange(0, 2).Draw(t, "writer") == 0
 	}
 	// a response without any message is trailers-only as well
 	trailersOnly := c.Fail && c.nreplies() <= 0 || c.nreplies() == 0
@@ -696,9 +729,12 @@ func record(c Case) {
 	if c.Fail {
 		cl = append(cl, "failing-rpc")
 	}
+	if c.Writer {
+		cl = append(cl, "httpbody-stream-through-AsHTTPBodyWriter")
+	}
 	key := ""
 	if nontriv {
-		key = fmt.Sprintf("%s|%v|%v|%v|%v|%v|%v|%v|%d", c.Transport, c.Req, c.Header, c.Trailer, c.SendHeader, c.TrailerLate, c.Fail, c.Split, c.nreplies())
+		key = fmt.Sprintf("%s|%v|%v|%v|%v|%v|%v|%v|%d", c.Transport, c.Req, c.Header, c.Trailer, c.SendHeader, c.TrailerLate, c.Fail, c.Split, c.nreplies()) + fmt.Sprint(c.Writer)
 	}
 	evid.Eval(key, cl...)
 }
